@@ -67,3 +67,66 @@ int scen_chain(cmd_t * c) {
 	dump(n);
 	return 1;
 }
+
+/* ---- pairing engine (TokenPairs.tla): `pairs <spec>` with spec = ty:len:adj:co:cc;... ------------------------------------------- */
+#include "token_pairs.h"
+#include "stack.h"
+#include "d_string.h"
+
+static int idx_of_start(const size_t * starts, int n, size_t s) { for (int i = 0; i < n; i++) if (starts[i] == s) return i + 1; return -1; }
+
+static void pairs_dfs(token * t, int depth, const size_t * starts, int n, int * mate, int * dep, DString * conts) {
+	for (; t; t = t->next) {
+		if (t->type >= 21 && t->type <= 29 && t->child) {
+			int a = idx_of_start(starts, n, t->start);
+			/* the container spans opener .. closer: the closer is the token that ends where the container ends */
+			int b = -1;
+			for (int i = 0; i < n; i++) if (starts[i] < t->start + t->len) b = i + 1;
+			d_string_append_printf(conts, "%s[%d,%d,%d]", conts->currentStringLength > 1 ? "," : "", a, b, (int)t->type);
+			pairs_dfs(t->child, depth + 1, starts, n, mate, dep, conts);
+		} else {
+			int i = idx_of_start(starts, n, t->start);
+			if (i > 0) { dep[i - 1] = depth; mate[i - 1] = t->mate ? idx_of_start(starts, n, t->mate->start) : 0; }
+		}
+	}
+}
+
+int scen_pairs(cmd_t * c) {
+	if (strcmp(c->name, "pairs")) return 0;
+	const char * spec = c->argv[0].s;
+	int n = 0; for (const char * q = spec; *q; q++) if (*q == ';') n++;
+	size_t * starts = calloc((size_t)n + 1, sizeof(size_t)); int * mate = calloc((size_t)n + 1, sizeof(int)); int * dep = calloc((size_t)n + 1, sizeof(int));
+	token_pair_engine * e = token_pair_engine_new();
+	token_pair_engine_add_pairing(e, 11, 12, 21, PAIRING_ALLOW_EMPTY | PAIRING_PRUNE_MATCH);
+	token_pair_engine_add_pairing(e, 11, 13, 22, PAIRING_PRUNE_MATCH);
+	token_pair_engine_add_pairing(e, 14, 14, 23, PAIRING_MATCH_LENGTH | PAIRING_PRUNE_MATCH);
+	token_pair_engine_add_pairing(e, 15, 15, 24, 0);
+	token * parent = token_new(0, 0, 0), * first = NULL;
+	size_t pos = 0; int k = 0; const char * q = spec;
+	while (*q && k < n) {
+		int ty, len, adj, co, cc;
+		if (sscanf(q, "%d:%d:%d:%d:%d", &ty, &len, &adj, &co, &cc) != 5) break;
+		token * t = token_new((unsigned short)ty, pos, (size_t)len);
+		t->can_open = co; t->can_close = cc; t->unmatched = 1;
+		starts[k++] = pos; pos += (size_t)len + (adj ? 0 : 1);
+		if (first) token_chain_append(first, t); else first = t;
+		while (*q && *q != ';') q++;
+		if (*q) q++;
+	}
+	parent->child = first; parent->len = pos;
+	stack * s = stack_new(0);
+	token_pairs_match_pairs_inside_token(parent, e, s, 0);
+	for (int i = 0; i < n; i++) { mate[i] = -2; dep[i] = -2; }
+	DString * conts = d_string_new("[");
+	pairs_dfs(parent->child, 0, starts, n, mate, dep, conts);
+	d_string_append(conts, "]");
+	DString * m = d_string_new("["), * d = d_string_new("[");
+	for (int i = 0; i < n; i++) { d_string_append_printf(m, "%s%d", i ? "," : "", mate[i]); d_string_append_printf(d, "%s%d", i ? "," : "", dep[i]); }
+	d_string_append(m, "]"); d_string_append(d, "]");
+	ev_begin("pairs"); ev_int("n", n); ev_int("stack", (long)s->size); ev_raw("mate", m->str); ev_raw("depth", d->str); ev_raw("conts", conts->str);
+	ev_raw("table", "[[11,12,21,5],[11,13,22,4],[14,14,23,6],[15,15,24,0]]"); ev_end();
+	d_string_free(m, true); d_string_free(d, true); d_string_free(conts, true);
+	stack_free(s); token_pair_engine_free(e); token_tree_free(parent);
+	free(starts); free(mate); free(dep);
+	return 1;
+}
